@@ -119,6 +119,24 @@ func c11Inits() []c11Init {
 			os.WriteFile(filepath.Join(dir, "plainfile"), []byte("x"), 0o644)
 			return filepath.Join(dir, "plainfile", "the.key")
 		}},
+		// a symbolic link whose target does not exist yet (the key is to live on another volume): like an absent path,
+		// the key is created - through the link - and read back by later runs
+		{"symlink-dangling", "absent", func(dir string) string {
+			p := filepath.Join(dir, "the.key")
+			os.Symlink(filepath.Join(dir, "not-yet.key"), p)
+			return p
+		}},
+		// non-canonical text AND loose permissions together; a link to a key file with loose permissions
+		{"valid-trailing-newline-mode-0644", "valid-ws", file(valid+"\n", 0o644)},
+		{"valid-trailing-crlf-mode-0640", "valid-ws", file(valid+"\r\n", 0o640)},
+		{"symlink-to-valid-mode-0644", "valid", func(dir string) string {
+			t := filepath.Join(dir, "target.key")
+			os.WriteFile(t, []byte(valid), 0o644)
+			os.Chmod(t, 0o644)
+			p := filepath.Join(dir, "the.key")
+			os.Symlink(t, p)
+			return p
+		}},
 		{"directory-not-empty", "unusable", func(dir string) string {
 			p := filepath.Join(dir, "the.key")
 			os.Mkdir(p, 0o755)
@@ -171,6 +189,7 @@ type c11Obs struct {
 	keyType string // absent | file | dir | other
 	keyData []byte
 	keyMode os.FileMode
+	link    string // target if the key path itself is a symbolic link
 }
 
 func c11Observe(p string) c11Obs {
@@ -183,15 +202,17 @@ func c11Observe(p string) c11Obs {
 	}
 	b, _ := os.ReadFile(p)
 	if st.Mode()&os.ModeSymlink != 0 {
+		target, _ := os.Readlink(p)
 		if t, err := os.Stat(p); err == nil {
-			return c11Obs{"file", b, t.Mode().Perm()}
+			return c11Obs{"file", b, t.Mode().Perm(), target}
 		}
+		return c11Obs{"file", b, st.Mode().Perm(), target}
 	}
-	return c11Obs{"file", b, st.Mode().Perm()}
+	return c11Obs{"file", b, st.Mode().Perm(), ""}
 }
 
 func (o c11Obs) same(p c11Obs) bool {
-	return o.keyType == p.keyType && bytes.Equal(o.keyData, p.keyData) && o.keyMode == p.keyMode
+	return o.keyType == p.keyType && bytes.Equal(o.keyData, p.keyData) && o.keyMode == p.keyMode && o.link == p.link
 }
 
 // the model's abstract state
@@ -592,7 +613,7 @@ func c11Post(c *Ctx, m *Part) {
 func init() {
 	register(&PropDef{
 		ID: "C11", Level: "model_checking",
-		Rule:        "explicit-state search with the real CLI: 22 initial states of the key path explored to depth 3 (thorough 4) and 68 more to depth 2 - the family of valid keys: the base64 text starting with each of the 64 characters of the alphabet, the all-zero and all-ones keys, a text of '+' and '/', a text that spells words - (absent; valid with mode 0600 / 0644; valid + LF / CRLF; a symbolic link to a valid key; empty; 32-, 63-, 65-, 66-, 96-, 128-byte keys; not base64; base64url alphabet; 64 raw bytes; directory, empty and not; the null device; a symbolic link to the null device; parent missing; below a regular file) x EVERY sequence of 1..3 (thorough 1..4) operations over {redact in1 --encrypt, redact in2 --encrypt, redact without --encrypt, decrypt, redact --encrypt of an input with an over-long second line (fails after one good line), of a cut gzip input (fails mid-stream), of a missing input (fails before reading)} = 21 x 399 traces, each replayed from a fresh sandbox; after every transition the observed key path (type, bytes, mode), exit status and output file are compared with the reference model (absent -> valid(K'), 64 bytes, base64, 0600, reads back, ciphertexts under the stored key; a FAILING run from absent either leaves no key and no ciphertext line, or a well-formed key under which every line it wrote decrypts, and that key is what later runs use; valid -> untouched, ciphertexts under K; valid with trailing white space: accepted or refused, untouched either way; unusable / parent missing -> non-zero exit, untouched, no output line, no plaintext; no --encrypt and decrypt never touch the key path; decrypt succeeds exactly with a valid key). states = distinct (initial state, abstract state) pairs reached; plus 60 CLI generations + 2000 GenerateKey calls pairwise distinct (observation) and one strace run for write ordering",
+		Rule:        "explicit-state search with the real CLI: 26 initial states of the key path explored to depth 3 (thorough 4) and 68 more to depth 2 - the family of valid keys: the base64 text starting with each of the 64 characters of the alphabet, the all-zero and all-ones keys, a text of '+' and '/', a text that spells words - (absent; valid with mode 0600 / 0644; valid + LF / CRLF; a symbolic link to a valid key, to one with mode 0644, to nothing yet; valid + LF / CRLF with modes 0644 / 0640; empty; 32-, 63-, 65-, 66-, 96-, 128-byte keys; not base64; base64url alphabet; 64 raw bytes; directory, empty and not; the null device; a symbolic link to the null device; parent missing; below a regular file) x EVERY sequence of 1..3 (thorough 1..4) operations over {redact in1 --encrypt, redact in2 --encrypt, redact without --encrypt, decrypt, redact --encrypt of an input with an over-long second line (fails after one good line), of a cut gzip input (fails mid-stream), of a missing input (fails before reading)} = 21 x 399 traces, each replayed from a fresh sandbox; after every transition the observed key path (type, bytes, mode), exit status and output file are compared with the reference model (absent -> valid(K'), 64 bytes, base64, 0600, reads back, ciphertexts under the stored key; a FAILING run from absent either leaves no key and no ciphertext line, or a well-formed key under which every line it wrote decrypts, and that key is what later runs use; valid -> untouched, ciphertexts under K; valid with trailing white space: accepted or refused, untouched either way; unusable / parent missing -> non-zero exit, untouched, no output line, no plaintext; no --encrypt and decrypt never touch the key path; decrypt succeeds exactly with a valid key). states = distinct (initial state, abstract state) pairs reached; plus 60 CLI generations + 2000 GenerateKey calls pairwise distinct (observation) and one strace run for write ordering",
 		Assumptions: []string{"'unreadable' key files cannot be produced when running as root", "distinctness of generated keys is an observation, not a decision", "a valid key followed by a newline may be accepted or refused; both outcomes must leave it untouched"},
 		Run:         c11Run, Post: c11Post,
 	})
